@@ -265,7 +265,7 @@ def run_loader_layout(ctx, rng, root):
             if rng.random() < .45:
                 p = os.path.join(d, nm)
                 with open(p, 'w') as f:
-                    f.write('F:%s:%s' % (os.path.basename(d), nm))
+                    f.write('F:%s:%s<i tal:omit-tag="">!</i>' % (os.path.basename(d), nm))
                 files[p] = True
     ext = rng.choice([None, '.pt', 'pt', '.txt'])
     L = PageTemplateLoader(list(dirs), default_extension=ext) if ext else PageTemplateLoader(list(dirs))
@@ -290,8 +290,10 @@ def run_loader_layout(ctx, rng, root):
             spec = rng.choice(list(files) or [os.path.join(dirs[0], 'zz.pt')])
         want = resolve(spec)
         out = None
+        # the format asked for is part of what is loaded: the same name may be loaded as markup and as text
+        fmt = rng.choice([None, None, 'xml', 'text'])
         try:
-            t = L.load(spec)
+            t = L.load(spec, fmt) if fmt else L.load(spec)
             got = t.filename
             try:
                 out = t()
@@ -301,17 +303,24 @@ def run_loader_layout(ctx, rng, root):
         except ValueError:
             got = None
             t = None
-        ok = (got == want) and (want in (None, 'OPENFAIL') or out == open(want).read())
-        why = 'resolved to %r, expected %r (output %r)' % (got, want, out)
-        if ok and spec in seen and want is not None and seen[spec] is not t:
+        if want in (None, 'OPENFAIL'):
+            want_out = None
+        elif fmt == 'text':
+            want_out = open(want).read().encode('utf-8')
+        else:
+            want_out = open(want).read().replace('<i tal:omit-tag="">!</i>', '!')
+        ok = (got == want) and (want in (None, 'OPENFAIL') or out == want_out)
+        why = 'resolved to %r, expected %r (format %r: output %r, expected %r)' % (got, want, fmt, out, want_out)
+        skey = (spec, fmt == 'text')
+        if ok and skey in seen and want is not None and seen[skey] is not t:
             ok = False
-            why = 'a second load of the same name returned a different instance'
+            why = 'a second load of the same name in the same format returned a different instance'
         if want is not None and got == want:
-            seen[spec] = t
+            seen[skey] = t
         ctx.mon('loads-compared')
-        ctx.case(key=('load', ext, spec if not os.path.isabs(spec) else 'ABS', want is None, len(dirs)), nontrivial=True)
+        ctx.case(key=('load', ext, spec if not os.path.isabs(spec) else 'ABS', want is None, len(dirs), fmt), nontrivial=True)
         if not ok:
-            ctx.violation('loader-resolution', 'default_extension=%r dirs=%d spec=%r: %s' % (ext, len(dirs), spec, why),
+            ctx.violation('loader-resolution', 'default_extension=%r dirs=%d spec=%r format=%r: %s' % (ext, len(dirs), spec, fmt, why),
                           {'kind': 'loader', 'spec': spec, 'ext': ext})
     # load: inside a file template looks next to that template first
     d_other = dirs[-1]
@@ -322,7 +331,7 @@ def run_loader_layout(ctx, rng, root):
     try:
         near = os.path.join(d_other, 'a.pt')
         wantp = near if os.path.exists(near) else resolve('a.pt')
-        want = open(wantp).read() if wantp else 'VALUEERR'
+        want = open(wantp).read().replace('<i tal:omit-tag="">!</i>', '!') if wantp else 'VALUEERR'
         got = L.load('inc.pt')()
     except Exception as e:
         got = 'VALUEERR' if isinstance(e, ValueError) else 'RAISED %s' % type(e).__name__
